@@ -328,6 +328,10 @@ func judge(col *core.Collector, t *Trial, prop string) (violation string, nontri
 	col.Count("operations", nops)
 	switch prop {
 	case "C02":
+		col.Count("churn.readbacks", t.churnReads.Load())
+		if p := t.churnViolation.Load(); p != nil {
+			return *p, true
+		}
 		lr := t.CheckLinearizable(t.Finals(f), 20*time.Second)
 		col.Count("lin.keys_ok", int64(lr.Ok))
 		col.Count("lin.keys_illegal", int64(lr.Illegal))
